@@ -1320,6 +1320,10 @@ pub unsafe extern "C" fn SFileVerifyArchive(archive: HANDLE, flags: u32) -> bool
         };
         let file_list = file_list.unwrap_or_default();
 
+        // SFileVerifyFile locks ARCHIVES itself and the mutex is not re-entrant:
+        // release our guard before verifying the individual files.
+        drop(archives);
+
         // Verify each file individually
         for file_entry in file_list {
             // Skip special files and directories
